@@ -102,7 +102,10 @@ def run_corpus(tag="memo"):
     # ... also when the innermost level is malformed, so that every enclosing level fails too: a failed production
     # must be remembered just like a successful one (unclosed / empty nests of depth 3, 5, 7)
     for shape, mk in (("unclosed-parens", lambda d: "let a = " + "(" * d + "num;\n"), ("empty-parens", lambda d: "let a = " + "(" * d + ")" * d + ";\n"),
-                      ("unclosed-mixed", lambda d: "let a = " + "".join("([{<"[i % 2] for i in range(d)) + " 'p num;\n")):
+                      ("unclosed-mixed", lambda d: "let a = " + "".join("([{<"[i % 2] for i in range(d)) + " 'p num;\n"),
+                      # well-formed, but every level abandons one alternative after composing nodes (a content with meta-data and no body)
+                      ("meta-only-contents", lambda d: "res / on get -> " + "<headers={ 'next " * d + "<status=204>" + " }>" * d + ";\n"),
+                      ("contents-with-bodies", lambda d: "res / on get -> " + "<status=200, { 'next " * d + "<status=204, {}>" + " }>" * d + ";\n")):
         rr = {}
         for d in (3, 5, 7):
             rc, out, t = run([drv], stdin=mk(d), timeout=120, mem_gb=6, extra_env={"PARSEDRV_MEMO_ONLY": "1"})
